@@ -216,7 +216,9 @@ ParseReport do_parse(const TypeOps& t, const std::string& bytes, const Pres& pre
       pr.escape_site = g_escape_site;
       pr.escape_msg = g_escape_msg;
     }
+    // the position inside the abandoned CodedInputStream is unknown: what the stream handed out bounds it from above
     pr.consumed = in ? (long)in->high_water : -1;
+    if (pres.limit >= 0 && pr.consumed > pres.limit) pr.consumed = pres.limit;
     // `cis` is abandoned (its destructor would touch a stream we no longer trust)
   }
   if (in) {
